@@ -24,6 +24,20 @@ def make_replay(pid, r, o, key, repo_root):
         json.dump(doc, f, indent=1)
     note = ''
     reproduced = False
+    if doc['concrete'] is None and r.get('battery') is not None:
+        # the solver produced no usable model: search the boundary battery natively for a failing input
+        doc['battery'] = r['battery']
+        with open(path, 'w') as f:
+            json.dump(doc, f, indent=1)
+        try:
+            out = subprocess.run(['/venv/bin/python', '-m', 'pyvc.replay', path, '--battery'], cwd=VERIF, capture_output=True,
+                                 text=True, timeout=300, env=dict(os.environ, PYTHONPATH=VERIF))
+            doc = json.load(open(path))
+            doc['battery_stdout'] = out.stdout[-1500:]
+        except Exception as e:
+            doc['battery_stdout'] = 'battery could not run: %r' % (e,)
+        with open(path, 'w') as f:
+            json.dump(doc, f, indent=1)
     if doc['concrete'] is not None:
         try:
             out = subprocess.run(['/venv/bin/python', '-m', 'pyvc.replay', path], cwd=VERIF, capture_output=True, text=True,
@@ -230,6 +244,139 @@ def run(path):
     return 0
 
 
+# ------------------------------------------------------------------ boundary battery (counterexample search)
+INTS = [-1, 0, 1, 2, 3, 23, 24, 127, 128, 255, 256, 16383, 16384, 65535, 65536, 2097151, 2097152, 268435455, 268435456]
+SLENS = [0, 1, 2, 23, 24, 127, 128, 255, 256, 300, 16383, 16384, 65535, 65536]
+CHARS = ['a', '\u00e9', '\u20ac', '\U0001F600']
+
+
+def cand_str(rng):
+    n = rng.choice(SLENS)
+    ch = rng.choice(CHARS)
+    k = len(ch.encode('utf-8'))
+    s = ch * (n // k) + 'a' * (n % k)
+    if rng.random() < 0.03:
+        s = '\ud800'
+    return {'$str_utf8': list(s.encode('utf-8', 'surrogatepass'))} if s != '\ud800' else {'$str_utf8': [237, 160, 128]}
+
+
+def cand_bytes(rng):
+    n = rng.choice([0, 1, 2, 3, 4, 5, 127, 128, 300])
+    return {'$bytes': [rng.choice([0, 1, 2, 127, 128, 129, 255, rng.randrange(256)]) for _ in range(n)]}
+
+
+def cand_type(t, rng):
+    if t == 'int':
+        return rng.choice(INTS)
+    if t == 'bool':
+        return rng.random() < 0.5
+    if t == 'Str':
+        return cand_str(rng)
+    if t == 'Bytes':
+        return cand_bytes(rng)
+    if t == 'Ver':
+        return {'$ver': rng.choice(['v31', 'v311'])}
+    if t == 'ListSI':
+        return {'$list': [{'$tuple': [cand_str(rng), rng.choice([0, 1, 2])]} for _ in range(rng.choice([0, 1, 2, 3]))]}
+    if t == 'ListStr':
+        return {'$list': [cand_str(rng) for _ in range(rng.choice([0, 1, 2, 3]))]}
+    if t == 'ListIB':
+        return {'$list': [{'$tuple': [rng.choice([0, 1, 2, 127]), rng.random() < 0.5]} for _ in range(rng.choice([0, 1, 2, 3]))]}
+    return None
+
+
+def cand_field(cls, f, rng):
+    none = {'$none': 1}
+    if f in ('msgId', 'keepalive'):
+        return rng.choice(INTS)
+    if f in ('qos', 'willQoS'):
+        return rng.choice([0, 1, 2])
+    if f in ('dup', 'retain', 'cleanStart', 'willRetain', 'session'):
+        return rng.random() < 0.5
+    if f in ('topic', 'clientId'):
+        return cand_str(rng)
+    if f == 'payload':
+        return rng.choice([cand_str(rng), cand_bytes(rng), cand_str(rng), 5, none])
+    if f in ('willTopic', 'willMessage', 'username', 'password'):
+        return rng.choice([none, cand_str(rng), cand_str(rng)])
+    if f == 'topics':
+        return cand_type('ListSI' if cls == 'SUBSCRIBE' else 'ListStr', rng)
+    if f == 'granted':
+        return cand_type('ListIB', rng)
+    if f == 'resultCode':
+        return rng.choice([0, 1, 5, 6, 255, 256])
+    if f == 'version':
+        return {'$ver': rng.choice(['v31', 'v311'])}
+    return none
+
+
+def battery(path):
+    import random, re
+    doc = json.load(open(path))
+    b = doc['battery']
+    rng = random.Random(int(os.environ.get('VERIF_SEED', '0') or 0))
+    clauses = ' '.join(b['requires'] + b['ensures'] + b['ensures_raise'] + [w for (_, w) in b['raises'] if w] + [e for (_, e) in b['lets']])
+    fields = sorted(set(re.findall(r'self\.(\w+)', clauses)))
+    cls = b['target'].split(':')[1].split('.')[0] if '.' in b['target'].split(':')[1] else None
+    ns = native_namespace(doc['repo_root'])
+    tried = 0
+    for it in range(int(b.get('samples', 400))):
+        conc = {'target': b['target'], 'args': {}, 'ghost': {}, 'self_fields': {}, 'lets': b['lets'], 'requires': b['requires'],
+                'raises': b['raises'], 'ensures': b['ensures'], 'ensures_raise': b['ensures_raise']}
+        ok = True
+        for (n, t, real) in b['params']:
+            if n == 'self':
+                for f in fields:
+                    conc['self_fields'][f] = cand_field(cls, f, rng)
+                continue
+            v = cand_type(t, rng)
+            if v is None and t != 'bool':
+                ok = False
+                break
+            (conc['args'] if real else conc['ghost'])[n] = v
+        if not ok:
+            print('battery: parameter type not supported')
+            return 2
+        # a requires of the form `packet == <spec expression>` determines that argument from the ghosts
+        for src in b['requires']:
+            m = re.match(r'^(\w+) == (.+)$', src)
+            if m and m.group(1) in conc['args']:
+                try:
+                    env = dict(ns)
+                    env.update({k: build_value(v) for k, v in conc['ghost'].items()})
+                    val = eval(m.group(2), env)
+                    if isinstance(val, (bytes, bytearray)) and len(val) < 400000:
+                        conc['args'][m.group(1)] = {'$bytes': list(val)}
+                except Exception:
+                    pass
+        doc['concrete'] = conc
+        tmp = path + '.try'
+        json.dump(doc, open(tmp, 'w'))
+        import io, contextlib
+        buf = io.StringIO()
+        try:
+            with contextlib.redirect_stdout(buf):
+                rc = run(tmp)
+        except Exception as e:
+            rc = 2
+        if rc == 1:
+            os.replace(tmp, path)
+            print('battery: failing input found after %d samples' % (it + 1))
+            print(buf.getvalue().strip()[-400:])
+            return 1
+        if rc == 0 and 'spurious' not in buf.getvalue():
+            tried += 1
+    try:
+        os.unlink(path + '.try')
+    except OSError:
+        pass
+    doc['concrete'] = None
+    doc['battery_result'] = 'no failing input among %d valid samples' % tried
+    json.dump(doc, open(path, 'w'), indent=1)
+    print('battery: no failing input among %d valid samples' % tried)
+    return 0
+
+
 def resolve_exc(name):
     try:
         import mqtt.error as E
@@ -242,7 +389,7 @@ def resolve_exc(name):
 
 if __name__ == '__main__':
     try:
-        rc = run(sys.argv[1])
+        rc = battery(sys.argv[1]) if '--battery' in sys.argv else run(sys.argv[1])
     except Exception:
         import traceback
         traceback.print_exc()
